@@ -106,7 +106,7 @@ SPEC = {
         "token_progress", "token_error_in_input", "token_no_panic", "spans_tile", "reemit_reproduces_input",
         "error_pos_in_range", "tokens_before_error_tile", "lexing_terminates", "read_never_panics",
         "literalIntWith_closed", "int_value_exact", "int_overflow_rejected", "int_rejected_only_when_too_large",
-        "literalInt_radix", "token_numeric_dispatch", "lex_float_nearest", "nearest64_total", "nearest64_correct", "nearest64_zero",
+        "literalInt_radix", "token_numeric_dispatch", "float_parts_shape_as_modelled", "lex_float_nearest", "nearest64_total", "nearest64_correct", "nearest64_zero",
         "nearest_correct_partial", "nearest_correct", "nearest_monotone", "nearest64_monotone",
         "nearest_exact_on_representable"]],
     "harness": "c10",
@@ -132,7 +132,9 @@ SPEC = {
             "every fixed spelling of every token kind alone, ordered pairs of operators/trivia/odd bytes glued, random "
             "token soups of 1-10 items with arbitrary trivia, both line endings and splices, and a numeric stream "
             "(integers of 3 bases up to 25 digits with 13 suffix spellings, boundary biased; decimal floats up to 20+ "
-            "significant digits, exponents -330..310 and far beyond, biased to halfway points, subnormals, overflow); "
+            "significant digits, exponents -330..310 and far beyond, biased to halfway points, subnormals, overflow; "
+            "plus a dense fast-path boundary family: 15/16/17 digits around 2^53, 2^24*10^k, 10^15, 10^16, odd last digits, "
+            "decimal scales -25..25, every whole/fraction split); "
             "non-trivial = at least three tokens or a numeric literal",
     "trusted_base": [
         "Lean 4.33 kernel; axioms propext / Classical.choice / Quot.sound only (audited by #print axioms)",
